@@ -1322,3 +1322,24 @@ Proof.
   rewrite Ht, Hi, Hpp, Hvv, Hs, Hp.
   rewrite (persistent_has_persist (clone_node n)) by (rewrite Hpp; exact Hp). reflexivity.
 Qed.
+
+(** a failing post-set hook changes the status only *)
+Lemma hookfail_state st c k ty v s :
+  snd (astep_hookfail st c k ty v s) = snd (astep (OSet c k ty v) s) /\
+  (fst (astep (OSet c k ty v) s) = AStatus KDUMP_OK -> fst (astep_hookfail st c k ty v s) = AStatus st) /\
+  (fst (astep (OSet c k ty v) s) <> AStatus KDUMP_OK ->
+   fst (astep_hookfail st c k ty v s) = fst (astep (OSet c k ty v) s)).
+Proof.
+  unfold astep_hookfail, hook_fails. destruct (astep (OSet c k ty v) s) as [r s']. cbn.
+  destruct r as [st0| | | | | |]; try (repeat split; congruence).
+  destruct st0; repeat split; congruence.
+Qed.
+
+Lemma hookfail_spec st p ty v l :
+  snd (dl_check_set_hookfail st p ty v l) = snd (dl_check_set p ty v l) /\
+  fst (dl_check_set_hookfail st p ty v l) =
+  (if status_eqb (fst (dl_check_set p ty v l)) KDUMP_OK then st else fst (dl_check_set p ty v l)).
+Proof.
+  unfold dl_check_set_hookfail. destruct (dl_check_set p ty v l) as [s0 l']. cbn.
+  destruct s0; split; reflexivity.
+Qed.
